@@ -72,6 +72,8 @@ RECIPES = {
     "flux_to_magnitude": (aotools.flux_to_magnitude, lambda: ([3e5, "K"], {})),
     "ft_phase_screen": (aotools.ft_phase_screen, lambda: ([0.15, 16, 0.05, 20., 0.01], {"seed": 7})),
     "ft_sh_phase_screen": (aotools.ft_sh_phase_screen, lambda: ([0.15, 16, 0.05, 20., 0.01], {"seed": 7})),
+    "ft_phase_screen[seed=0]": (aotools.ft_phase_screen, lambda: ([0.15, 8, 0.05, 20., 0.01], {"seed": 0})),
+    "ft_sh_phase_screen[seed=0]": (aotools.ft_sh_phase_screen, lambda: ([0.15, 8, 0.05, 20., 0.01], {"seed": numpy.int64(0)})),
     "phase_covariance": (aotools.phase_covariance, lambda: ([numpy.array([0., 0.3, 2.], dtype="float32"), 0.15, 20.], {})),
     "phase_covariance[f64]": (aotools.phase_covariance, lambda: ([numpy.array([[0., 0.3], [2., 5.]]), 0.15, 20.], {})),
     "structure_function_vk": (aotools.structure_function_vk, lambda: ([numpy.array([0., 0.1, 0.3, 2.]), 0.15, 20.], {})),
